@@ -396,6 +396,51 @@ func (g *rgen) ignPath(locs [][]any) []any {
 	return p
 }
 
+// deepPair wraps a bottom container with 3..5 members in a chain of 2..12 arrays/objects and perturbs two or more
+// of the bottom members.
+func (g *rgen) deepPair() (abs, abs) {
+	n := 3 + g.r.Intn(3)
+	isArr := g.r.Intn(2) == 0
+	mk := func(vals []any) abs {
+		if isArr {
+			return aArr(vals...)
+		}
+		m := map[string]any{}
+		for i, v := range vals {
+			m[string(rune('a'+i))] = v
+		}
+		return aObj(m)
+	}
+	va := make([]any, n)
+	vb := make([]any, n)
+	for i := range va {
+		va[i] = g.leaf()
+		vb[i] = va[i]
+	}
+	for changed := 0; changed < 2; {
+		i := g.r.Intn(n)
+		nv := g.leaf()
+		if fmt.Sprint(nv) != fmt.Sprint(va[i]) && fmt.Sprint(vb[i]) == fmt.Sprint(va[i]) {
+			vb[i] = nv
+			changed++
+		}
+	}
+	a, b := mk(va), mk(vb)
+	for d := 2 + g.r.Intn(11); d > 0; d-- {
+		switch g.r.Intn(3) {
+		case 0:
+			a, b = aArr(a), aArr(b)
+		case 1:
+			pre := g.leaf()
+			a, b = aArr(pre, a), aArr(pre, b)
+		default:
+			k := rkeys[g.r.Intn(len(rkeys))]
+			a, b = aObj(map[string]any{k: a}), aObj(map[string]any{k: b})
+		}
+	}
+	return a, b
+}
+
 func diffRand(args []string) {
 	fs := flag.NewFlagSet("diffrand", flag.ExitOnError)
 	n := fs.Int("n", 1000, "number of pairs")
@@ -408,6 +453,19 @@ func diffRand(args []string) {
 	for i := 0; i < *n; i++ {
 		a := g.tree(1 + g.r.Intn(4))
 		var b abs
+		if i%8 == 7 {
+			// deep and narrow: several differences under one parent far down (path lengths 3..13)
+			a, b = g.deepPair()
+			var locs [][]any
+			locsOf(a, nil, &locs)
+			locsOf(b, nil, &locs)
+			igs := [][]any{{}}
+			for k := g.r.Intn(3); k > 0; k-- {
+				igs = append(igs, []any{g.ignPath(locs[len(locs)/2:])})
+			}
+			enc.Encode(abs{"a": a, "b": b, "igs": igs, "salt": 1 + g.r.Intn(1<<29)})
+			continue
+		}
 		switch g.r.Intn(8) {
 		case 0:
 			b = g.tree(1 + g.r.Intn(3))
